@@ -251,7 +251,9 @@ int ptg_task_end(int th, int cls, int nloc, ...)
             int64_t h = 17;
             h = ptg_mix(h, cls); h = ptg_mix(h, f);
             for (int i = 0; i < nloc && i < PTG_MAXP; i++) h = ptg_mix(h, loc[i]);
-            for (int g = 0; g < s->nfl; g++) if (s->mode[g]) h = ptg_mix(h, s->in[g] == PTG_NONE ? 0 : s->in[g]);
+            /* C02/C16 hash only the announced (data) flows; C05's reference also mixes 0 for unannounced (CTL) flows: PTG_HASH_ALLFLOWS=1 */
+            static int allflows = -1; if (allflows < 0) allflows = getenv("PTG_HASH_ALLFLOWS") ? 1 : 0;
+            for (int g = 0; g < s->nfl; g++) if (allflows || s->mode[g]) h = ptg_mix(h, s->in[g] == PTG_NONE ? 0 : s->in[g]);
             out[f] = h;
         }
     }
